@@ -529,53 +529,71 @@ fn key_json(okey: &str, min: &Value) -> String {
 /// the schedule: not replayable, a supplement to the seeded runs and Miri).
 fn native_concurrent(seed: u64) -> Option<String> {
     let mut rng = Rng::new(seed);
-    let params = ScenParams { max_players: 3, max_product: 40, allow_zero_players: true, hash_seeds: true };
+    let params = ScenParams { max_players: 3, max_product: 24, allow_zero_players: true, hash_seeds: true };
     let n = rng.range(2, 8) as usize;
-    let shared = gen_scenario(&mut rng, &params);
-    let shared_built = BuiltScen { scen: shared.clone(), ranges: Arc::new(shared.build_ranges()) };
-    let mut jobs: Vec<(BuiltScen, TaskSpec)> = vec![];
-    for _ in 0..n {
-        let b = if rng.chance(1, 2) {
-            shared_built.clone()
+    // a small pool of scenarios on two or three different flops, shared by the threads
+    let nscen = rng.range(2, 3) as usize;
+    let mut pool: Vec<BuiltScen> = vec![];
+    for i in 0..nscen {
+        let s = if i > 0 && rng.chance(1, 2) {
+            let mut s = pool[0].scen.clone();
+            s.flop = gen_flop(&mut rng);
+            s
         } else {
-            let s = gen_scenario(&mut rng, &params);
-            BuiltScen { scen: s.clone(), ranges: Arc::new(s.build_ranges()) }
+            gen_scenario(&mut rng, &params)
         };
-        let prod = b.scen.product().max(1);
-        let spec = TaskSpec { scen: 0, scope: small_window(&mut rng, prod), pre: vec![], extra_polls: 1 };
-        jobs.push((b, spec));
+        pool.push(BuiltScen { scen: s.clone(), ranges: Arc::new(s.build_ranges()) });
     }
-    let alone: Vec<Vec<Out>> = jobs.iter().map(|(b, s)| alone_inproc(b, s)).collect();
+    // every thread gets a few (scenario, window) tasks and repeats them many times:
+    // construction and draining of short evaluators on alternating flops, concurrently
+    let mut jobs: Vec<Vec<(BuiltScen, TaskSpec)>> = vec![];
+    for _ in 0..n {
+        let mut mine = vec![];
+        for _ in 0..rng.range(2, 3) {
+            let b = pool[rng.usize_below(nscen)].clone();
+            let prod = b.scen.product().max(1);
+            let maxlen = (60 / prod).max(1).min(12);
+            let fi = rng.usize_below(NPOS);
+            let ti = (fi + rng.range(0, maxlen) as usize).min(NPOS);
+            mine.push((b, TaskSpec { scen: 0, scope: Some((pos_from_index(fi), pos_from_index(ti))), pre: vec![], extra_polls: 0 }));
+        }
+        jobs.push(mine);
+    }
+    let rounds = 40usize;
+    let alone: Vec<Vec<Vec<Out>>> = jobs.iter().map(|mine| mine.iter().map(|(b, s)| alone_inproc(b, s)).collect()).collect();
     let barrier = Arc::new(std::sync::Barrier::new(n));
     let hs: Vec<_> = jobs
         .iter()
         .cloned()
-        .map(|(b, s)| {
+        .zip(alone.iter().cloned())
+        .map(|(mine, want)| {
             let bar = barrier.clone();
             std::thread::Builder::new()
                 .stack_size(64 << 20)
-                .spawn(move || {
+                .spawn(move || -> Option<String> {
                     bar.wait();
-                    alone_inproc(&b, &s)
+                    for round in 0..rounds {
+                        for (k, (b, s)) in mine.iter().enumerate() {
+                            let got = alone_inproc(b, s);
+                            if !same_seq(&got, &want[k]) {
+                                return Some(format!("round {round}, {} scope {}..{}: {}", b.scen.short(), pos_str(s.from()), pos_str(s.to()), first_diff(&got, &want[k])));
+                            }
+                        }
+                    }
+                    None
                 })
                 .unwrap()
         })
         .collect();
+    let mut res = None;
     for (i, h) in hs.into_iter().enumerate() {
         match h.join() {
-            Ok(v) => {
-                if !same_seq(&v, &alone[i]) {
-                    return Some(format!(
-                        "thread {i} of {n} ({}): {}",
-                        jobs[i].0.scen.short(),
-                        first_diff(&v, &alone[i])
-                    ));
-                }
-            }
-            Err(_) => return Some(format!("thread {i} of {n}: panic escaped")),
+            Ok(Some(d)) => res = res.or(Some(format!("thread {i} of {n}: {d}"))),
+            Ok(None) => {}
+            Err(_) => res = res.or(Some(format!("thread {i} of {n}: panic escaped"))),
         }
     }
-    None
+    res
 }
 
 // ---------------------------------------------------------------- sub-checks
